@@ -25,7 +25,7 @@ if [ $S -eq 0 ] && [ $W -ne 0 ] && [ $O -eq 0 ]; then
   mkdir -p /verif/seeded/$ID
   cp /tmp/seed_$ID.diff /verif/seeded/$ID/patch.diff
   cp seed_demo_test.go /verif/seeded/$ID/seed_demo_test.go
-  [ -f SEED_notes.md ] && cp SEED_notes.md /verif/seeded/$ID/notes.md
+  for n in SEED_notes.md notes.md; do [ -f $n ] && cp $n /verif/seeded/$ID/notes.md; done
   echo "CONFIRMED -> /verif/seeded/$ID"
 else
   echo "NOT CONFIRMED"; exit 1
